@@ -48,50 +48,20 @@ Theorem C12_cursor_roundtrip_full : forall l, Forall (fun e => len e < two32) l 
 Proof. exact cursor_roundtrip. Qed.
 Print Assumptions C12_cursor_roundtrip_full.
 
-(* ---- SignedHeader / SignedData: the property as worded is FALSE of the code: a signer that has an address
-   but no public key comes back as the empty signer (serialization.go:63-69, 103-114, 365-367, 392-403).
-   _refuted: a well-formed value that encodes fine and decodes to a different value, for every key table.
-   _partial: under the decidable guard [signer_consistent] ("no public key => no address") the round trip
-   is exact, header, signature and signer included. ---- *)
-Theorem C12_signed_header_roundtrip_refuted : forall pk_canon,
-  exists s, wf_signed_header pk_canon s /\ marshal_signed_header s = Some (enc_signed_header s) /\
-            exists s', dec_signed_header pk_canon (enc_signed_header s) = Some s' /\ s' <> s.
-Proof. exact signed_header_roundtrip_fails. Qed.
-Print Assumptions C12_signed_header_roundtrip_refuted.
-
-Theorem C12_signed_header_roundtrip_partial : forall pk_canon s,
-  wf_signed_header pk_canon s -> signer_consistent (sh_signer s) = true ->
+(* ---- SignedHeader / SignedData: exact round trip, header/data, signature and signer included, for every
+   well-formed value and every public-key table.  (Before the repair c84fe2d of types/serialization.go a
+   signer with an address but no key came back empty: see the Examples before_the_repair_* below.) ---- *)
+Theorem C12_signed_header_roundtrip_full : forall pk_canon s, wf_signed_header pk_canon s ->
   marshal_signed_header s = Some (enc_signed_header s) /\
   dec_signed_header pk_canon (enc_signed_header s) = Some s.
-Proof. exact signed_header_roundtrip_guarded. Qed.
-Print Assumptions C12_signed_header_roundtrip_partial.
+Proof. exact signed_header_roundtrip. Qed.
+Print Assumptions C12_signed_header_roundtrip_full.
 
-Theorem C12_signed_data_roundtrip_refuted : forall pk_canon,
-  exists s, wf_signed_data pk_canon s /\ marshal_signed_data s = Some (enc_signed_data s) /\
-            exists s', dec_signed_data pk_canon (enc_signed_data s) = Some s' /\ s' <> s.
-Proof. exact signed_data_roundtrip_fails. Qed.
-Print Assumptions C12_signed_data_roundtrip_refuted.
-
-Theorem C12_signed_data_roundtrip_partial : forall pk_canon s,
-  wf_signed_data pk_canon s -> signer_consistent (sd_signer s) = true ->
+Theorem C12_signed_data_roundtrip_full : forall pk_canon s, wf_signed_data pk_canon s ->
   marshal_signed_data s = Some (enc_signed_data s) /\
   dec_signed_data pk_canon (enc_signed_data s) = Some s.
-Proof. exact signed_data_roundtrip_guarded. Qed.
-Print Assumptions C12_signed_data_roundtrip_partial.
-
-(* Even outside the guard nothing that is hashed or signed changes: header, signature and data come back
-   exactly; only the signer is replaced by [norm_signer] of it. *)
-Theorem C12_signed_header_payload_full : forall pk_canon s, wf_signed_header pk_canon s ->
-  dec_signed_header pk_canon (enc_signed_header s) =
-  Some {| sh_header := sh_header s; sh_sig := sh_sig s; sh_signer := norm_signer (sh_signer s) |}.
-Proof. exact signed_header_norm. Qed.
-Print Assumptions C12_signed_header_payload_full.
-
-Theorem C12_signed_data_payload_full : forall pk_canon s, wf_signed_data pk_canon s ->
-  dec_signed_data pk_canon (enc_signed_data s) =
-  Some {| sd_data := sd_data s; sd_sig := sd_sig s; sd_signer := norm_signer (sd_signer s) |}.
-Proof. exact signed_data_norm. Qed.
-Print Assumptions C12_signed_data_payload_full.
+Proof. exact signed_data_roundtrip. Qed.
+Print Assumptions C12_signed_data_roundtrip_full.
 
 (* ---- hashes and signatures survive the round trip, for ANY hash function and ANY verification function:
    the hash preimage, the signed payload, the signature and the public key of the decoded value are those
@@ -149,8 +119,41 @@ Theorem C12_batch_decode_stable_full : forall bs, dec_batch bs = None \/
   exists l, dec_batch bs = Some l /\ (Forall sz l -> dec_batch (enc_batch l) = Some l).
 Proof. exact batch_decode_total_stable. Qed.
 Print Assumptions C12_batch_decode_stable_full.
-(* SignedHeader, SignedData, State and the cursor list: decode stability is NOT proved; it is checked on
-   the real code and on the model by the differential harness only (oracle "decode-not-stable"). *)
+Theorem C12_state_decode_stable_full : forall bs, dec_state bs = None \/
+  exists s, dec_state bs = Some s /\
+            (sizes_state s -> marshal_state s = Some (enc_state s) /\ dec_state (enc_state s) = Some s).
+Proof. exact state_decode_total_stable. Qed.
+Print Assumptions C12_state_decode_stable_full.
+
+(* for the signed types the key table must be idempotent: re-marshalling a parsed key gives bytes that parse
+   to the same key (true of crypto.MarshalPublicKey/UnmarshalPublicKey; hypothesis, stated here) *)
+Theorem C12_signed_header_decode_stable_full : forall pk_canon,
+  (forall raw c, pk_canon raw = Some c -> pk_canon c = Some c) ->
+  forall bs, dec_signed_header pk_canon bs = None \/
+  exists s, dec_signed_header pk_canon bs = Some s /\
+            (sizes_signed_header s -> marshal_signed_header s = Some (enc_signed_header s) /\
+                                      dec_signed_header pk_canon (enc_signed_header s) = Some s).
+Proof. exact signed_header_decode_total_stable. Qed.
+Print Assumptions C12_signed_header_decode_stable_full.
+
+Theorem C12_signed_data_decode_stable_full : forall pk_canon,
+  (forall raw c, pk_canon raw = Some c -> pk_canon c = Some c) ->
+  forall bs, dec_signed_data pk_canon bs = None \/
+  exists s, dec_signed_data pk_canon bs = Some s /\
+            (sizes_signed_data s -> marshal_signed_data s = Some (enc_signed_data s) /\
+                                    dec_signed_data pk_canon (enc_signed_data s) = Some s).
+Proof. exact signed_data_decode_total_stable. Qed.
+Print Assumptions C12_signed_data_decode_stable_full.
+
+(* the fuel of the three loops of the model is never what makes a decoder fail: with more fuel than input
+   bytes the result does not depend on the fuel (message loop, group-skipping loop, cursor loop) *)
+Theorem C12_fuel_full :
+  (forall f1 f2 bs, (length bs <= f1)%nat -> (length bs <= f2)%nat -> parse_fuel f1 bs = parse_fuel f2 bs) /\
+  (forall f1 f2 st lvl bs, (length bs < f1)%nat -> (length bs < f2)%nat -> skip_group f1 st lvl bs = skip_group f2 st lvl bs) /\
+  (forall f1 f2 bs, (length bs <= f1)%nat -> (length bs <= f2)%nat -> dec_cursor_fuel f1 bs = dec_cursor_fuel f2 bs).
+Proof. exact (conj parse_fuel_indep (conj skip_group_fuel_indep cursor_fuel_indep)). Qed.
+Print Assumptions C12_fuel_full.
+(* Stability of the cursor list (decode bs = Some l -> decode (encode l) = Some l) is NOT proved: tested only. *)
 
 (* ---- golden vectors: the model reproduces, byte for byte, encodings recorded from the pinned tree
    (harness/c12/golden_c12.json; the Go side re-checks bytes and SHA-256 hashes on every run) ---- *)
@@ -192,9 +195,30 @@ Proof. unfold wf_header, wf_version, sz, len, two64; cbn; repeat split; try refl
 Example ex_header_bytes :
   enc_header ex_header = [10;13;8;1;16;255;255;255;255;255;255;255;255;255;1;16;172;2;34;3;1;2;3;50;1;255;66;1;0;82;2;9;9;98;5;99;49;50;195;169].
 Proof. vm_compute. reflexivity. Qed.
-Example ex_signed_header_guard :
-  signer_consistent {| sg_addr := [7]; sg_pk := [8;1;18;1;5] |} = true /\
-  signer_consistent {| sg_addr := [7]; sg_pk := [] |} = false /\ signer_consistent signer0 = true.
+(* the defect repaired by c84fe2d, kept as a record: with the OLD glue a signer with an address and no key was
+   written as the empty signer and read back empty; with the repaired glue it survives; the signer with
+   neither key nor address keeps its bytes (1a 00) *)
+Definition old_signer_to_pb (s : wsigner) : wsigner := if is_nil (sg_pk s) then signer0 else s.
+Definition old_signer_from_pb (pk_canon : bytes -> option bytes) (o : option wsigner) : option wsigner :=
+  match o with
+  | None => Some signer0
+  | Some s => if is_nil (sg_pk s) then Some signer0
+              else match pk_canon (sg_pk s) with Some c => Some {| sg_addr := sg_addr s; sg_pk := c |} | None => None end
+  end.
+Definition lone_address : wsigner := {| sg_addr := [7]; sg_pk := [] |}.
+Example before_the_repair_signer_address_lost :
+  old_signer_from_pb (fun k => Some k) (Some (old_signer_to_pb lone_address)) = Some signer0 /\ signer0 <> lone_address.
+Proof. split; [vm_compute; reflexivity | discriminate]. Qed.
+Example after_the_repair_signer_address_kept :
+  dec_signed_header (fun k => Some k) (enc_signed_header {| sh_header := header0; sh_sig := []; sh_signer := lone_address |}) =
+  Some {| sh_header := header0; sh_sig := []; sh_signer := lone_address |} /\
+  dec_signed_data (fun k => Some k) (enc_signed_data {| sd_data := data0; sd_sig := []; sd_signer := lone_address |}) =
+  Some {| sd_data := data0; sd_sig := []; sd_signer := lone_address |}.
+Proof. vm_compute. split; reflexivity. Qed.
+Example empty_signer_bytes_unchanged :
+  enc_signed_header {| sh_header := header0; sh_sig := []; sh_signer := signer0 |} = [10;2;10;0; 26;0] /\
+  enc_signed_data {| sd_data := data0; sd_sig := []; sd_signer := signer0 |} = [10;0; 26;0] /\
+  enc_signer (old_signer_to_pb signer0) = enc_signer (signer_to_pb signer0).
 Proof. vm_compute. repeat split; reflexivity. Qed.
 (* decoding is not only defined on canonical input: merged duplicate sub-message, unknown group, last-wins *)
 Example ex_noncanonical_decode :
